@@ -28,14 +28,14 @@ func fieldLoadOf(v ssa.Value, typ, field string) bool {
 		v = u.X
 	}
 	fv := an.FieldOf(v)
-	if fv == nil || fv.Name() != field {
+	if fv == nil || an.Ident(fv.Name()) != field {
 		return false
 	}
 	if typ == "" {
 		return true
 	}
 	n := structOfFieldAccess(v)
-	return n != nil && n.Obj().Name() == typ
+	return n != nil && an.TName(n) == typ
 }
 
 func runC08(p *an.Prog, r *an.Run, tier string) {
@@ -139,7 +139,7 @@ func runC08(p *an.Prog, r *an.Run, tier string) {
 	cfn := rh // the function holding the candidate loop: requestHosts itself or a helper it was moved to
 	for _, rf := range regionFuncs(p, rh) {
 		for _, c := range an.Calls(rf, false) {
-			if b, ok := c.Common().Value.(*ssa.Builtin); ok && b.Name() == "append" {
+			if b, ok := c.Common().Value.(*ssa.Builtin); ok && an.Ident(b.Name()) == "append" {
 				if sl, ok := c.Common().Args[0].Type().Underlying().(*types.Slice); ok && isNamedType(sl.Elem(), "hostService") {
 					candAppend, _ = c.(*ssa.Call)
 					cfn = rf
@@ -528,7 +528,7 @@ func runC08(p *an.Prog, r *an.Run, tier string) {
 	for _, fn := range p.Repo {
 		an.AllInstrs(fn, func(in ssa.Instruction) {
 			if st, ok := in.(*ssa.Store); ok {
-				if fv := an.FieldOf(st.Addr); fv != nil && fv.Name() == "skipWhitelist" {
+				if fv := an.FieldOf(st.Addr); fv != nil && an.Ident(fv.Name()) == "skipWhitelist" {
 					bad = append(bad, "skipWhitelist is written in non-test code at "+p.Pos(st.Pos()))
 				}
 			}
@@ -644,7 +644,7 @@ func checkActiveHosts(p *an.Prog, r *an.Run, d *types.Named, m *ssa.Function, ex
 	var loopFn *ssa.Function
 	for _, fn := range an.WithAnon(m) {
 		for _, c := range an.Calls(fn, false) {
-			if b, ok := c.Common().Value.(*ssa.Builtin); ok && b.Name() == "append" {
+			if b, ok := c.Common().Value.(*ssa.Builtin); ok && an.Ident(b.Name()) == "append" {
 				if sl, ok := c.Common().Args[0].Type().Underlying().(*types.Slice); ok && isNamedType(sl.Elem(), "Node") {
 					appends = append(appends, c.(*ssa.Call))
 					loopFn = fn
@@ -892,7 +892,7 @@ func checkActiveHosts(p *an.Prog, r *an.Run, d *types.Named, m *ssa.Function, ex
 
 func isFieldNamed(v ssa.Value, name string) bool {
 	if f, ok := v.(*ssa.Field); ok {
-		if fv := an.FieldOf(f); fv != nil && fv.Name() == name {
+		if fv := an.FieldOf(f); fv != nil && an.Ident(fv.Name()) == name {
 			return true
 		}
 		return isFieldNamed(f.X, name) && false
